@@ -8,6 +8,7 @@ mod c09;
 mod c11;
 mod c12;
 mod model;
+mod proc;
 
 fn main() {
     let args = Args::parse();
@@ -18,8 +19,28 @@ fn main() {
     }
     match args.property.as_str() {
         "C09" => c09::run(&args, &report),
-        "C11" => c11::run(&args, &report),
-        "C12" => c12::run(&args, &report),
+        // C11/C12 drive RocksDB: the histories run in child processes so that a
+        // crash inside the storage backend is attributed instead of killing the monitor
+        "C11" | "C12" => {
+            let c11 = args.property == "C11";
+            if proc::child_shard(&args).is_some() {
+                proc::child_init(&args);
+                if c11 {
+                    c11::run(&args, &report)
+                } else {
+                    c12::run(&args, &report)
+                }
+            } else {
+                let selftest = model::selftest_mode(&args);
+                proc::parent_run(&args, &report, selftest);
+                let replay = args.replay.is_some();
+                if c11 {
+                    c11::finish(&args, &report, selftest, replay)
+                } else {
+                    c12::finish(&args, &report, selftest, replay)
+                }
+            }
+        }
         other => {
             report.inconclusive(format!("property {other} not implemented in this monitor"));
             report.finish(&args, "exploration", "", false, &[]);
